@@ -32,10 +32,37 @@ def check(ex, cond, msg, extra=None):
     Quick in-process attempt first; if z3's incremental core cannot decide it within a few seconds the
     query goes to the external portfolio (z3 5.x non-incremental, cvc5 bit-blasting, cvc5 int-blasting)."""
     from .values import simp
-    from . import portfolio
     cond = simp(cond)
     if cond is True:
         return
+    if cond is not False and not ex.env.get('eager_checks'):
+        # recorded now, discharged in one query when the path ends (every sibling path passes through
+        # the same obligation, so deciding it under each final path condition covers pc-at-this-point)
+        ex.obligations.append((cond, msg, extra))
+        return
+    _decide(ex, cond, msg, extra)
+
+
+def discharge(ex):
+    obs = ex.obligations
+    ex.obligations = []
+    if not obs:
+        return
+    if len(obs) == 1:
+        return _decide(ex, *obs[0])
+    allc = z3.And([c for c, _, _ in obs])
+    try:
+        _decide(ex, allc, 'obligations', None)
+        return
+    except Violation:
+        pass
+    for c, msg, extra in obs:
+        _decide(ex, c, msg, extra)
+    raise BoundExceeded('conjunction of obligations refuted but no single obligation is')
+
+
+def _decide(ex, cond, msg, extra):
+    from . import portfolio
     neg = z3.Not(cond) if not isinstance(cond, bool) else z3.BoolVal(True)
     ex.solver.set('timeout', ex.env.get('quick_ms', 3000))
     try:
@@ -129,7 +156,13 @@ def explore(world, harness, max_paths=200000, panic_is_violation=True, stop_at_f
         ex = Executor(world, prefix, step_limit=step_limit)
         status = 'ok'
         try:
-            sample = harness(ex)
+            try:
+                sample = harness(ex)
+            except (RustPanic, Violation):
+                # obligations recorded before the abnormal end still have to hold
+                discharge(ex)
+                raise
+            discharge(ex)
             res.ok += 1
             if sample is not None and len(res.samples) < 6:
                 res.samples.append(sample)
